@@ -1,9 +1,10 @@
 """C01 — every request is dispatched to the one endpoint registered for it."""
 import re
 
-from .lib import PLUMBING, callee_allow, callers, closure_args_of_call, operand_local, try_edges
-from .lib_c01 import (VALUE_PRESERVING, access_path, bool_switch_of_call, captured_operand, conflict_loop, enum_switches,
-                      resolve_path, upvar_index, version_param)
+from .lib import PLUMBING, callee_allow, callers, closure_args_of_call, operand_local
+from .lib_c01 import (PRE_FIX_F3_EDITS, VALUE_PRESERVING, Renamed, access_path, bool_switch_of_call, conflict_loop, enum_switches,
+                      resolve_path, version_param)
+from .lib_c01 import edge_is_rejecting as edge_rejects
 
 LEVEL = "other"
 TECHNIQUE = ("static analysis: access-path / slice provenance (SAME-SOURCE, CHAIN), per-variant decision tables read off the MIR switches of the trie walk, "
@@ -14,11 +15,12 @@ LEVEL_TEXT = ("Decides, on every path of the type-checked MIR of the current tre
               "request version) and `variables` is the map filled by the walk; (R3) per edge kind the walk compares / binds the request segment itself (only to_string/clone in between), "
               "a wildcard receives the current segment followed by every remaining one in order (possibly none), and `node` is only ever advanced to the child of the edge just matched; "
               "(R4) insert and lookup normalise the method key identically; (R5) the only version predicate used for selection is ApiEndpointVersions::matches on the caller's version; "
-              "(R6) the one insertion-ordered container is appended to only after every existing element was tested with overlaps_with and none overlapped, so with C05.E2 at most one "
-              "element matches any version and `find` is order-independent. Not decided: correctness of the recursive trie as a theorem over all tables (that the node reached is the node "
+              "(R6) the one insertion-ordered container is appended to only after every existing element was tested with overlaps_with and none overlapped, and (R6E2) overlaps_with is "
+              "exactly 'some version in both' on all order types, so at most one element matches any version and `find` is order-independent. Not decided: correctness of the recursive trie as a theorem over all tables (that the node reached is the node "
               "of the template for every nesting) - that needs a verifier or execution.")
 LEVEL_NOTE = ("Trusts rustc MIR construction, the extractor, engine slices/dominators, std BTreeMap::{get,insert,entry}, Vec::push, Iterator::{next,find} and http::{Request,Uri,Method} accessors. "
-              "R6's uniqueness conclusion relies on C05.E2 (overlaps_with is exactly 'some version in both', decided exhaustively in rules/c05.py) and C05.E1 (matches).")
+              "R6E2 re-runs rule C05.E2 of rules/c05.py (exhaustive interpretation of overlaps_with over all weak orders of the range bounds) under this property's id; "
+              "the uniqueness conclusion additionally relies on C05.E1 (matches is exact membership).")
 EXPLANATION = ("Rules over the MIR of server::http_request_handle (coroutine), router::HttpRouter::{lookup_route,insert}, router::find_handler_matching_version and "
                "router::iter_handlers_from_node extracted from the current tree. Provenance is computed as normalised access paths (single-assignment temporaries followed through copies, "
                "borrows and an explicit list of value-preserving callees, stopping at parameters, call results and re-assigned locals) and backward slices with callee allow-lists; "
@@ -46,7 +48,7 @@ def _same_root(a, b):
 # --------------------------------------------------------------------------- R1
 def r1_request_wiring(ctx):
     R = ctx.rule("C01.R1", "http_request_handle calls lookup_route(server.router, request.method(), request.uri().path(), request_version(&request)?) on the one request, and both "
-                 "handle_request calls take lookup_result.handler, a RequestContext whose endpoint is lookup_result.endpoint, and that same request", floor=11)
+                 "handle_request calls take lookup_result.handler, a RequestContext whose endpoint is lookup_result.endpoint, and that same request", floor=13)
     top = ctx.need_fn(ctx.ds, R, r"^server::http_request_handle$")
     hb = ctx.ds.body_of(top)
     looks = callers(ctx.ds, r"HttpRouter::<Context>::lookup_route$")
@@ -136,7 +138,7 @@ def _find_call(ctx, R, lr):
 
 def r2_one_endpoint(ctx):
     R = ctx.rule("C01.R2", "every field of lookup_route's Ok answer (handler, operation_id, body_content_type, request_body_max_bytes) is read from the one endpoint returned by a single "
-                 "find_handler_matching_version(node.methods[METHOD], version); `variables` is the map the walk filled; version reaches the selection unmodified", floor=9)
+                 "find_handler_matching_version(node.methods[METHOD], version); `variables` is the map the walk filled; version reaches the selection unmodified", floor=10)
     lr = _lr(ctx, R)
     ok = _find_call(ctx, R, lr)
     if ok is None:
@@ -297,7 +299,7 @@ def _vec_contributions(lr, rest_op):
 def r3_walk_integrity(ctx):
     R = ctx.rule("C01.R3", "per edge kind the walk uses the request segment itself: Literals -> get(children, segment); VariableSingle(name, child) -> variables[name] = String(segment), "
                  "descend to child; VariableRest(name, child) -> variables[name] = Components(current segment followed by every remaining segment), descend to child; after the last "
-                 "segment a VariableRest edge binds Components([]); `node` is assigned nowhere else", floor=16)
+                 "segment a VariableRest edge binds Components([]); `node` is assigned nowhere else", floor=17)
     lr = _lr(ctx, R)
     outer, inners, it_local = _segment_nexts(lr)
     if outer is None:
@@ -513,7 +515,7 @@ VERSION_OPS = {
 
 def r5_one_version_predicate(ctx):
     R = ctx.rule("C01.R5", "inside router.rs handlers are selected by version only through ApiEndpointVersions::matches(handler.versions, caller's version); "
-                 "find_handler_matching_version returns Iterator::find of exactly that predicate over its argument", floor=8)
+                 "find_handler_matching_version returns Iterator::find of exactly that predicate over its argument", floor=10)
     seen = {}
     for f in ctx.ds.F.values():
         if not f.id.startswith("router::"):
@@ -591,7 +593,7 @@ def r5_one_version_predicate(ctx):
 def r6_order_independence(ctx):
     R = ctx.rule("C01.R6", "children and method tables are keyed maps (one child per literal, one handler list per method); the only insertion-ordered container, the per-method "
                  "Vec<ApiEndpoint>, is appended to by one push that every path reaches only after overlaps_with(existing, new) was false for every existing element "
-                 "(with C05.E2: at most one element matches any version, so find()'s answer does not depend on registration order)", floor=8)
+                 "(with C05.E2: at most one element matches any version, so find()'s answer does not depend on registration order)", floor=9)
     ins = _ins(ctx, R)
     nf = {f["name"]: f["ty"] for f in (ctx.ds.adt_fields("router::HttpRouterNode") or [])}
     keyed = r"^std::collections::(BTreeMap|HashMap)<std::string::String, "
@@ -606,8 +608,155 @@ def r6_order_independence(ctx):
     ctx.assume("C05.E2 (rules/c05.py): overlaps_with(a, b) is true iff some version belongs to both ranges; C05.E1: matches is exact membership")
 
 
+# --------------------------------------------------------------------------- R7
+FLAG = "has_versioned_routes"
+
+
+def _is_field_place(pl, name):
+    fs = [e for e in pl["p"] if isinstance(e, dict) and "f" in e]
+    return bool(fs) and fs[-1].get("n") == name and pl["p"] and pl["p"][-1] is fs[-1]
+
+
+def _versioned_edges(ins):
+    """Edges of insert taken exactly when the new endpoint's versions are not `All`:
+    (edges, description, blocks of the deciding switches) from a ==/!= comparison with All or from a match on endpoint.versions."""
+    edges, sws, how = [], [], []
+    for bb, t in ins.live_calls(r"cmp::PartialEq::(eq|ne)$"):
+        pa, pb = access_path(ins, t["args"][0], VP), access_path(ins, t["args"][1], VP)
+        for x, y in ((pa, pb), (pb, pa)):
+            if x.kind() == "param" and x.root[1] == 2 and x.path == ["versions"] and y.kind() == "agg" and \
+                    y.root[2].get("adt") == "api_description::ApiEndpointVersions" and y.root[2].get("variant") == "All":
+                sw = bool_switch_of_call(ins, bb, t)
+                if sw:
+                    sbb, tb, fb = sw
+                    edges.append((sbb, tb if t["callee"].endswith("::ne") else fb))
+                    sws.append(sbb)
+                    how.append("endpoint.versions %s All" % ("!=" if t["callee"].endswith("::ne") else "=="))
+                break
+    for sbb, info, tg in enum_switches(ins, r"^api_description::ApiEndpointVersions$"):
+        p = access_path(ins, info["place"], VP)
+        if p.kind() == "param" and p.root[1] == 2 and p.path == ["versions"] and "All" in tg:
+            for v, t in tg.items():
+                if v != "All" and t != tg["All"]:
+                    edges.append((sbb, t))
+            sws.append(sbb)
+            how.append("match endpoint.versions")
+    return edges, how, sws
+
+
+def r7_versioned_routes_need_versioned_server(ctx):
+    R = ctx.rule("C01.R7", "a router that holds any endpoint with a version range is never served without a version policy: has_versioned_routes starts false, is only ever set to true, "
+                 "is set on every path of insert that registers an endpoint whose versions != All, is what has_versioned_routes() returns, and the one place that builds the server state "
+                 "refuses (Err, nothing built) when the policy is Unversioned and that accessor is true (otherwise every range matches version None and the first registered endpoint wins)",
+                 floor=9)
+    ins = _ins(ctx, R)
+    rf = [f["name"] for f in (ctx.ds.adt_fields("router::HttpRouter") or [])]
+    if FLAG not in rf:
+        ctx.lost(R, "field HttpRouter.%s" % FLAG)
+        return
+    fidx = rf.index(FLAG)
+    # (a) writers
+    inits = [(g, bb, st) for g in ctx.ds.F.values() for bb, i, st in g.aggregates(r"^router::HttpRouter$")]
+    okinit = bool(inits) and all(st["rv"]["ops"][fidx].get("k") == "const" and (st["rv"]["ops"][fidx].get("val") or {}).get("int") == 0 for g, bb, st in inits)
+    ctx.check(R, "flag-starts-false", okinit, "HttpRouter{..} is built in %s with %s = false: %s" % (sorted(set(g.id for g, _, _ in inits)), FLAG, okinit), inits[0][0] if inits else None)
+    stores, escapes = [], []
+    for g in ctx.ds.F.values():
+        for bb, i, st in g.stmts():
+            if _is_field_place(st["pl"], FLAG):
+                stores.append((g, bb, st))
+            rv = st["rv"]
+            if rv["rv"] in ("ref", "rawptr") and rv.get("mut") and _is_field_place(rv["pl"], FLAG):
+                escapes.append((g, bb))
+        for bb, t in g.calls():
+            if _is_field_place(t["dest"], FLAG):
+                stores.append((g, bb, {"rv": {"rv": "call"}, "pl": t["dest"]}))
+    ctx.check(R, "flag-never-borrowed-mutably", not escapes, "&mut borrows of the flag: %s" % [(g.id, b) for g, b in escapes], ins)
+    vedges, how, vsws = _versioned_edges(ins)
+    sticky_unconditional = []
+    guarded = []
+    for g, bb, st in stores:
+        rv = st["rv"]
+        if g is ins and rv["rv"] == "use" and rv["op"].get("k") == "const" and (rv["op"].get("val") or {}).get("int") == 1:
+            ctx.check(R, "flag-store:constant-true", True, "insert stores the constant `true`", (g, bb))
+            guarded.append(bb)
+            continue
+        if g is ins and rv["rv"] == "binop" and rv["op"] == "BitOr":
+            pa, pb = access_path(ins, rv["a"], []), access_path(ins, rv["b"], [])
+            old, new = (pa, pb) if pa.path and pa.path[-1] == FLAG else (pb, pa)
+            if old.kind() == "param" and old.root[1] == 1 and old.path == [FLAG] and new.is_call(r"cmp::PartialEq::ne$") and not new.path:
+                t = new.call()[2]
+                x, y = access_path(ins, t["args"][0], VP), access_path(ins, t["args"][1], VP)
+                if any(p.kind() == "param" and p.root[1] == 2 and p.path == ["versions"] for p in (x, y)) and \
+                        any(p.kind() == "agg" and p.root[2].get("variant") == "All" for p in (x, y)):
+                    ctx.check(R, "flag-store:sticky-or", True, "insert stores flag | (endpoint.versions != All)", (g, bb))
+                    sticky_unconditional.append(bb)
+                    continue
+        ctx.check(R, "flag-store:%s" % g.id, False, "%s is assigned a value that is not the constant `true` (a computed or `false` value forgets earlier versioned endpoints)" % FLAG, (g, bb))
+    if not stores:
+        ctx.check(R, "flag-store:constant-true", False, "no store to %s anywhere: versioned routes are never recorded" % FLAG, ins)
+    # every registration of a versioned endpoint records it
+    rets = ins.returns()
+    if sticky_unconditional:
+        okp = ins.must_pass(sticky_unconditional)
+        d = "the sticky store lies on every path of insert to its return: %s" % okp
+    else:
+        okp = bool(vedges) and bool(guarded) and all(not any(r in ins.reachable(dst, avoid=guarded) for r in rets) for src, dst in vedges) and ins.must_pass(vsws)
+        d = "test `%s` is on every path to return and from its `versioned` edge the store cannot be avoided: %s" % (", ".join(how) or "<none found>", okp)
+    ctx.check(R, "versioned-endpoint-always-recorded", okp, d, ins)
+    if guarded:
+        okg = bool(vedges) and all(b not in ins.reachable(0, avoid_edges=vedges) for b in guarded)
+        ctx.check(R, "store-only-for-versioned-endpoints", okg, "the store is reachable only through the `versions != All` edge: %s" % okg, (ins, guarded[0]))
+    # (b) accessor
+    acc = ctx.need_fn(ctx.ds, R, r"^router::HttpRouter::<Context>::has_versioned_routes$")
+    pr = access_path(acc, {"l": 0, "p": []}, [])
+    ctx.check(R, "accessor-returns-the-flag", pr.kind() == "param" and pr.root[1] == 1 and pr.path == [FLAG] and not pr.calls, "has_versioned_routes() returns %r" % pr, acc)
+    # (c) the consumer
+    cs = callers(ctx.ds, r"^router::HttpRouter::<Context>::has_versioned_routes$")
+    states = [(g, bb, st) for g in ctx.ds.F.values() for bb, i, st in g.aggregates(r"^server::DropshotState$")]
+    ctx.check(R, "one-server-state-construction", len(states) == 1, "aggregate sites of DropshotState: %s" % [(g.id) for g, _, _ in states], states[0][0] if states else None)
+    if len(cs) != 1 or len(states) != 1 or cs[0][0] is not states[0][0]:
+        ctx.check(R, "server-start-consults-the-flag", False, "has_versioned_routes() callers: %s; DropshotState built in: %s" % ([f.id for f, _, _ in cs], [g.id for g, _, _ in states]), None)
+        return
+    f, cbb, ct = cs[0]
+    _g, abb, ast_ = states[0]
+    sf = [x["name"] for x in ctx.ds.adt_fields("server::DropshotState")]
+    ops = dict(zip(sf, ast_["rv"]["ops"]))
+    prt = access_path(f, ct["args"][0], VP)
+    prs = access_path(f, ops["router"], VP) if "router" in ops else None
+    same_router = prs is not None and prt.kind() == "call" and prs.kind() == "call" and prt.call()[2] is prs.call()[2] and not prt.path and not prs.path
+    into = prt.is_call(r"^api_description::ApiDescription::<Context>::into_router$")
+    okir = False
+    if into:
+        ir = ctx.ds.one(r"^api_description::ApiDescription::<Context>::into_router$")
+        if ir is not None:
+            q = access_path(ir, {"l": 0, "p": []}, [])
+            okir = q.kind() == "param" and q.root[1] == 1 and q.path == ["router"]
+    ctx.check(R, "flag-read-from-the-router-that-is-served", same_router and into and okir,
+              "has_versioned_routes(%r); DropshotState.router = %r; into_router returns self.router: %s" % (prt, prs, okir), (f, cbb))
+    sw = bool_switch_of_call(f, cbb, ct)
+    ppol = access_path(f, ops["version_policy"], VP) if "version_policy" in ops else None
+    psw = [s for s in enum_switches(f, r"^versioning::VersionPolicy$")
+           if ppol is not None and access_path(f, s[1]["place"], VP).root == ppol.root and access_path(f, s[1]["place"], VP).path == ppol.path]
+    if sw is None or len(psw) != 1:
+        ctx.check(R, "unversioned-policy-with-versioned-routes-refused", False, "branch on has_versioned_routes(): %s; switches on the served version policy: %d" % (sw is not None, len(psw)), (f, cbb))
+        return
+    sbb, tb, fb = sw
+    pbb, pinfo, ptg = psw[0]
+    unv = ptg.get("Unversioned")
+    refuse = edge_rejects(f, sbb, tb) and abb not in f.reachable(tb)
+    consulted = unv is not None and all(ptg[o] != unv for o in ptg if o != "Unversioned") and abb not in f.reachable(unv, avoid=[cbb]) and f.dominates(pbb, abb)
+    ctx.check(R, "unversioned-policy-with-versioned-routes-refused", refuse and consulted,
+              "policy Unversioned -> has_versioned_routes() is consulted on every path to the server state: %s; true -> Err and no server state is built: %s" % (consulted, refuse), (f, sbb))
+
+
+def r6e2_overlap_table(ctx):
+    from . import c05
+    c05.e2_overlaps(Renamed(ctx, "C01.R6E2", "premise of R6's uniqueness argument: two ranges accepted on one node and method never share a version, because overlaps_with is exact on all order types"))
+
+
 RULES = [("C01.R1", r1_request_wiring), ("C01.R2", r2_one_endpoint), ("C01.R3", r3_walk_integrity), ("C01.R4", r4_key_normalisation),
-         ("C01.R5", r5_one_version_predicate), ("C01.R6", r6_order_independence)]
+         ("C01.R5", r5_one_version_predicate), ("C01.R6", r6_order_independence), ("C01.R6E2", r6e2_overlap_table),
+         ("C01.R7", r7_versioned_routes_need_versioned_server)]
 
 RT = "dropshot/src/router.rs"
 SV = "dropshot/src/server.rs"
@@ -641,6 +790,22 @@ SELFTEST = [
                 "        for handler in old_handlers.iter() {\n            if handler.versions.overlaps_with(&endpoint.versions) {\n                if handler.versions == endpoint.versions {"),
                (RT, "        existing_handlers.push(endpoint);\n    }", "    }")],
      "why": "the list is extended before the conflict test: a refused (panicking) registration leaves the conflicting endpoint in the table (DESIGN Appendix B: push moved above the overlap loop)"},
+    {"name": "pre-fix-F3-overlap", "kind": "mutant", "expect": ["C01.R6E2"], "edits": PRE_FIX_F3_EDITS,
+     "why": "the repaired defect F3: From(A) and the one-version range [A,A] both register on one method and path; dispatch at version A then depends on registration order"},
+    {"name": "versioned-flag-not-sticky", "kind": "mutant", "expect": ["C01.R7"],
+     "edits": [(RT, "        if endpoint.versions != ApiEndpointVersions::All {\n            self.has_versioned_routes = true;\n        }\n",
+                "        self.has_versioned_routes =\n            endpoint.versions != ApiEndpointVersions::All;\n")],
+     "why": "the flag reflects only the last registered endpoint: an unversioned server starts with two endpoints on disjoint version ranges, routes at version None and the first "
+            "registered one wins (adversary change C01-B)"},
+    {"name": "versioned-flag-never-set", "kind": "mutant", "expect": ["C01.R7"],
+     "edits": [(RT, "            self.has_versioned_routes = true;\n", "")],
+     "why": "versioned routes are never recorded, so an unversioned server serves them order-dependently"},
+    {"name": "unversioned-server-check-removed", "kind": "mutant", "expect": ["C01.R7"],
+     "edits": [(SV, "            if router.has_versioned_routes() {", "            if false {")],
+     "why": "a server without a version policy is built over a router with version-constrained endpoints"},
+    {"name": "accessor-negated", "kind": "mutant", "expect": ["C01.R7"],
+     "edits": [(RT, "    pub fn has_versioned_routes(&self) -> bool {\n        self.has_versioned_routes\n", "    pub fn has_versioned_routes(&self) -> bool {\n        !self.has_versioned_routes\n")],
+     "why": "the server-start check sees the opposite of what was recorded"},
     {"name": "wildcard-drops-current-segment", "kind": "mutant", "expect": ["C01.R3"],
      "edits": [(RT, "let mut rest = vec![segment];", "let mut rest: Vec<String> = Vec::new();")],
      "why": "a trailing wildcard variable misses the first of the remaining segments"},
@@ -656,7 +821,32 @@ SELFTEST = [
     {"name": "selection-by-position", "kind": "mutant", "expect": ["C01.R5"],
      "edits": [(RT, "handlers.into_iter().find(|h| h.versions.matches(version))", "handlers.into_iter().filter(|h| h.versions.matches(version)).nth(1)")],
      "why": "the matching handler is skipped: the endpoint registered for the version is not the one selected"},
+    {"name": "literal-lookup-case-folded", "kind": "mutant", "expect": ["C01.R3"],
+     "edits": [(RT, "edges.get(&segment_string)", "edges.get(&segment_string.to_lowercase())")],
+     "why": "a request path that differs in case from the template is dispatched to the endpoint (and the exact spelling with upper case is not)"},
     # ---------------------------------------------------------------- benign variants
+    {"name": "benign-extra-statement-in-walk", "kind": "benign",
+     "edits": [(RT, "            let segment_string = segment.to_string();\n", "            let segment_string = segment.to_string();\n            let _depth = variables.len();\n")],
+     "why": "behaviour-preserving: an unrelated read of the variables map inside the walk loop"},
+    {"name": "benign-handler-taken-before-context", "kind": "benign",
+     "edits": [(SV, "    let rqctx = RequestContext {", "    let handler = Arc::clone(&lookup_result.handler);\n    let rqctx = RequestContext {"),
+               (SV, "    let handler = lookup_result.handler;\n", "")],
+     "why": "behaviour-preserving: independent statements reordered, handler cloned instead of moved"},
+    {"name": "benign-flag-set-by-match", "kind": "benign",
+     "edits": [(RT, "        if endpoint.versions != ApiEndpointVersions::All {\n            self.has_versioned_routes = true;\n        }\n",
+                "        match endpoint.versions {\n            ApiEndpointVersions::All => {}\n            _ => self.has_versioned_routes = true,\n        }\n")],
+     "why": "behaviour-preserving: the != All test written as a match"},
+    {"name": "benign-flag-sticky-or", "kind": "benign",
+     "edits": [(RT, "        if endpoint.versions != ApiEndpointVersions::All {\n            self.has_versioned_routes = true;\n        }\n",
+                "        self.has_versioned_routes |= endpoint.versions != ApiEndpointVersions::All;\n")],
+     "why": "behaviour-preserving: sticky flag written as |="},
+    {"name": "benign-flag-negated-equality", "kind": "benign",
+     "edits": [(RT, "        if endpoint.versions != ApiEndpointVersions::All {\n            self.has_versioned_routes = true;", "        if !(endpoint.versions == ApiEndpointVersions::All) {\n            self.has_versioned_routes = true;")],
+     "why": "behaviour-preserving: a != b written as !(a == b)"},
+    {"name": "benign-policy-check-as-match", "kind": "benign",
+     "edits": [(SV, "        if let VersionPolicy::Unversioned = version_policy {\n            if router.has_versioned_routes() {\n                return Err(BuildError::UnversionedServerHasVersionedRoutes);\n            }\n        }\n",
+                "        match version_policy {\n            VersionPolicy::Unversioned if router.has_versioned_routes() => {\n                return Err(BuildError::UnversionedServerHasVersionedRoutes);\n            }\n            _ => {}\n        }\n")],
+     "why": "behaviour-preserving: nested if-let / if written as a match with a guard"},
     {"name": "benign-segment-clone", "kind": "benign",
      "edits": [(RT, "let segment_string = segment.to_string();", "let segment_string = segment.clone();")],
      "why": "behaviour-preserving: String::clone instead of to_string"},
